@@ -192,6 +192,10 @@ func NewWorld(t *testing.T, kind string, tp int64, opt string, ska, skb int64) *
 	w.coord = ibctesting.NewCoordinator(t, 2)
 	w.ch["A"] = w.coord.GetChain(ibctesting.GetChainID(1))
 	w.ch["B"] = w.coord.GetChain(ibctesting.GetChainID(2))
+	// move off the whole second the framework starts at, so that every consensus state the set-up creates has a
+	// timestamp strictly inside (T0-1s, T0-0.5s): "tick -1" for every comparison with integer ticks
+	w.coord.IncrementTimeBy(100 * time.Millisecond)
+	w.coord.CommitBlock(w.ch["A"], w.ch["B"])
 	w.path = ibctesting.NewPath(w.ch["A"], w.ch["B"])
 	trusting := ibctesting.TrustingPeriod
 	if tp > 0 && tp < 1000000 {
